@@ -80,9 +80,11 @@ def _gen_param(rng, name, objects):
             return [name, "str", code(["a", "bc", "sigmoid"])]
         return [name, kind, [code(pool) for _ in range(rng.randint(1, 2))]]
     dom = {"n": [0, 1, 2, 3], "stop": [-1, 1, 2, 3, 5], "ic": [0, 1, 2, 2, 3], "sc": [0, 1, 1, 2, 2, 3], "ar": [0, 1], "churn": [0, 1], "k": [0, 1, 7], "mc": [0, 1, 1, 2, 3, 4, 4]}[name]
-    kind = rng.choice(["scalar", "scalar", "list", "list", "tuple", "range", "np0", "np1"])
+    kind = rng.choice(["scalar", "scalar", "list", "list", "tuple", "range", "np0", "np1", "oneshot", "gen"])
     if name == "stop" and kind in ("range", "np0", "np1"):
         kind = "list"
+    if kind in ("oneshot", "gen"):
+        return [name, kind, [rng.choice(dom) for _ in range(rng.choice([1, 2, 2, 3]))]]
     if kind == "np0":
         return [name, "np0", rng.choice(dom)]
     if kind == "np1":
@@ -202,7 +204,10 @@ def _usercls_case(rng, nproc=1):
     names = rng.sample(sorted(dom), rng.randint(1, 3))
     params = []
     for nm in names:
-        kind = rng.choice(["seqproto", "seqproto", "iteronly", "oneshot", "both", "mapping", "scalar", "list"])
+        kind = rng.choice(["seqproto", "seqproto", "iteronly", "oneshot", "oneshot", "gen", "gen", "both", "mapping", "scalar", "list", "range"])
+        if kind == "range":
+            params.append([nm, "range", [0, rng.randint(1, 3), 1]])
+            continue
         if kind == "scalar":
             params.append([nm, "scalar", rng.choice(dom[nm])])
         elif kind == "mapping":
@@ -217,9 +222,9 @@ def _usercls_case(rng, nproc=1):
     elif p < 0.85:
         params.append(["tag", rng.choice(["seqproto", "iteronly", "both"]), [1000 + rng.randrange(3) for _ in range(2)]])
     rng.shuffle(params)
-    # FINDING on HEAD (reported, not generated): batch_run calls _make_model_kwargs(parameters) once per iteration, so a one-shot
-    # iterator (generator) given as a parameter value is exhausted after iteration 0 and iterations 1.. run nothing
-    iterations = 1 if any(p_[1] == "oneshot" for p_ in params) else rng.choice([1, 1, 2])
+    # one-shot iterators / generators with iterations 1, 2, 3: every combination must run in EVERY iteration (found by this stream:
+    # batch_run used to expand the design once per iteration, exhausting them after iteration 0; fixes/C13-4-expand-design-once)
+    iterations = rng.choice([1, 2, 2, 3]) if any(p_[1] in ("oneshot", "gen") for p_ in params) else rng.choice([1, 1, 2])
     return {"objects": objects, "ops": [["batch", params, iterations, rng.choice([1, 2, 3]), rng.choice([-1, 1, 2]), nproc, False]]}
 
 
@@ -271,12 +276,10 @@ def enumerate_cases(tier, broken=False):
             yield c
     # designs: all shapes of two parameters
     shapes = [["scalar", 1], ["list", [0, 1]], ["tuple", [2]], ["range", [0, 3, 1]], ["range", [1, 1, 1]], ["list", []], ["list", [1, 1]],
-              ["np0", 2], ["np1", [0, 1]], ["np1", []], ["seqproto", [0, 1, 2]], ["seqproto", []], ["iteronly", [1, 0]], ["oneshot", [2, 1]],
+              ["np0", 2], ["np1", [0, 1]], ["np1", []], ["seqproto", [0, 1, 2]], ["seqproto", []], ["iteronly", [1, 0]], ["oneshot", [2, 1]], ["gen", [0, 2]],
               ["both", [0, 2]], ["mapping", [1, 2]], ["npscalar", 2], ["bool", 1]]
     for a, b in itertools.product(shapes, repeat=2):
         for it in (1, 2):
-            if it == 2 and "oneshot" in (a[0], b[0]):
-                continue        # see the finding in _usercls_case
             yield {"objects": ["s"], "ops": [["batch", [["n", *a], ["k", *b], ["tag", "str", 1000]], it, 2, 1, 1]]}
 
 
@@ -317,6 +320,8 @@ def _py_params(params, objects):
         elif kind == "np1":
             import numpy as np
             out[name] = np.array(payload, dtype=int)  # 1-d array: its elements (numpy ints); may be empty -> no runs
+        elif kind == "gen":
+            out[name] = (x for x in [_decode(c, objects) for c in payload])     # a generator: can be consumed once
         elif kind in ("seqproto", "iteronly", "oneshot", "both", "mapping"):
             from props import batch_models as bm
 
@@ -340,7 +345,7 @@ def _values(p, objects):
         return [payload]
     if kind in ("list", "tuple"):
         return list(payload) if payload else None
-    if kind in ("np1", "seqproto", "iteronly", "oneshot", "both", "mapping"):
+    if kind in ("np1", "seqproto", "iteronly", "oneshot", "gen", "both", "mapping"):
         return list(payload)
     if kind in ("strsub", "lenonly"):
         return [payload]
@@ -618,7 +623,7 @@ def _c_pspec(p):
         return f"PSingle {L.z(payload)}"
     if kind in ("list", "tuple"):
         return f"PMany {L.zlist(payload)}" if payload else "PEmptySeq"
-    if kind in ("np1", "seqproto", "iteronly", "oneshot", "both", "mapping"):
+    if kind in ("np1", "seqproto", "iteronly", "oneshot", "gen", "both", "mapping"):
         return f"PMany {L.zlist(payload)}"
     if kind in ("strsub", "lenonly"):
         return f"PSingle {L.z(payload)}"
